@@ -7,12 +7,16 @@ B  every path of bounded depth (exhaustive) + simulated long behaviours are repl
    RegisteredDecoys (real transports' identifiers, real default lifetimes, time by back-dating).
 C  seeded random histories over a larger alphabet are recorded from the real object and validated by
    Trace_Registry (all invariants evaluated on every observed state); one corrupted trace must be rejected.
+D  one sweep races with six connection handlers over 400 valid, unused, 11-minute-old registrations (no gates): at
+   quiescence every registration must be in one of the two serial outcomes - marked used and kept, or removed and
+   never announced as used (NeverRemovedEarly / PostSweepExact under real concurrency inside the locked methods).
 """
 import json, os, copy
 import vlib
 
 PKG = "pkg/station/lib"
 FILES = ["common/vcommon_test.go", "pkg_station_lib/registry_verif_test.go"]
+STRESS_FILES = ["common/vcommon_test.go", "pkg_station_lib/ingest_sched_verif_test.go", "pkg_station_lib/ingest_pipeline_verif_test.go"]
 
 
 def run(ctx):
@@ -135,6 +139,21 @@ def run(ctx):
     ctx.cov["traces_validated_against_impl"] = len(traces)
     ctx.sample({"stage": "C", "trace_prefix": [fmt_op(x) for x in traces[0][:12]]})
     ctx.stage("C", traces=len(traces), events=total, accepted=ok)
+
+    # ---- D: connection vs sweep under real concurrency (interleavings INSIDE the locked methods, which no gate reaches):
+    # every registration must end in one of the two serial outcomes (used and kept / removed and never used)
+    sp = os.path.join(ctx.scratch, "sweepmark.ndjson")
+    ctx.go_test(PKG, STRESS_FILES, "lib", "^TestVerifSweepMarkStress$", env={"VERIF_OUT": sp, "VERIF_ROUNDS": 300 if thorough else 40}, timeout=900)
+    srows = ctx.read_results(sp)
+    ssum = [x for x in srows if x.get("kind") == "summary"]
+    if not ssum:
+        raise vlib.InfraError("sweep/mark stress did not finish")
+    for x in srows:
+        if x.get("kind") == "prop":
+            ctx.violation("concurrent:%s" % x["prop"], "sweep racing with connections: %s" % x["detail"], x)
+    if ssum[0]["used_kept"] == 0 or ssum[0]["removed"] == 0:
+        raise vlib.InfraError("sweep/mark stress is vacuous (one side always wins): %s" % ssum[0])
+    ctx.stage("D", **{k: v for k, v in ssum[0].items() if k != "kind"})
 
     ctx.cov["evaluations"] = summ["behaviours"] + len(traces)
     ctx.cov["distinct_nontrivial"] = nontrivial
